@@ -61,6 +61,7 @@ type line struct {
 	Err     string          `json:"err"`
 	WallUS  int64           `json:"wallUS"`
 	Sample  json.RawMessage `json:"sample"`
+	Known   string          `json:"known"`
 }
 
 type knownFinding struct {
@@ -231,7 +232,7 @@ func main() {
 						continue
 					}
 					last = l.Index
-					if l.Outcome != nil && l.Outcome.Violation != nil {
+					if l.Outcome != nil && l.Outcome.Violation != nil && l.Known == "" {
 						nviol++
 					}
 					mu.Lock()
